@@ -38,6 +38,9 @@ type Opened struct {
 	// LostAckNext (durable-streams only): the next n appends are committed by the server but answered
 	// with 503, as when the reply is lost on the way back.
 	LostAckNext func(n int)
+	// RejectNext (durable-streams only): the next n appends are answered 503 by a gateway and never
+	// reach the server.
+	RejectNext func(n int)
 }
 
 var (
@@ -73,6 +76,9 @@ func durableURL(chunk int) string {
 // behind a proxy / the server was restarted after committing).
 var lostAck sync.Map // stream name -> *atomic.Int32
 
+// rejectPost: the next n append requests for that stream are answered 503 without reaching the server.
+var rejectPost sync.Map
+
 var (
 	strictOffsets sync.Map // stream name -> true: read offsets are validated
 	validOffset   = regexp.MustCompile(`^(-1|[0-9A-Za-z_]+)$`)
@@ -90,6 +96,11 @@ func lostAckProxy(next http.Handler) http.Handler {
 			}
 		}
 		if r.Method == http.MethodPost {
+			if v, ok := rejectPost.Load(name); ok && v.(*atomic.Int32).Add(-1) >= 0 {
+				// the request never reaches the server: a gateway answers for it
+				http.Error(w, "verif: upstream unavailable", http.StatusServiceUnavailable)
+				return
+			}
 			if v, ok := lostAck.Load(name); ok && v.(*atomic.Int32).Add(-1) >= 0 {
 				rec := httptest.NewRecorder()
 				next.ServeHTTP(rec, r)
@@ -182,6 +193,9 @@ func Open(kind, scratch string) (*Opened, error) {
 		ctr := &atomic.Int32{}
 		lostAck.Store(name, ctr)
 		o.LostAckNext = func(n int) { ctr.Store(int32(n)) }
+		rej := &atomic.Int32{}
+		rejectPost.Store(name, rej)
+		o.RejectNext = func(n int) { rej.Store(int32(n)) }
 		o.Reopen = func() (*Opened, error) {
 			s2, err := ds.New(base, name)
 			if err != nil {
